@@ -314,7 +314,8 @@ TEXT = ("Held on every case observed: ~24 000 (quick) / ~3.8 million (thorough) 
         "(return_scalar, rescale_x) view compared with central differences together with the mapping identities. "
         "Numerical tolerances come from an explicit error model; exploration over sampled matrices and problems."
         " Half of the view problems first use other entry points of the same Optimize object (run_simplex, solve, step, run_bfgs, "
-        "run_l_bfgs_b, run_ls_trf) with wide tolerances, so that views are also examined at points where every target is met.")
+        "run_l_bfgs_b, run_ls_trf) with wide tolerances, so that views are also examined at points where every target is met."
+        ' The public accessors of every view (get_x at user-written knob values against an independent affine formula, set_x(get_x()), get_x_limits) are part of every problem.')
 NOTE = ("Trusted: numpy's SVD/pinv as the independent reference for the truncated minimum-norm solution; the "
         "finite-difference error model behind the tolerances.")
 TECHNIQUE = "runtime monitoring: contract (post-condition) on every SVD.lstsq call against an independently recomputed truncated-SVD solution + algebraic identity and finite-difference oracles"
